@@ -93,6 +93,23 @@ def merge_corpus(tier):
                                ("d", ("m", (("h", hv),))))))
             docs.append(("m", (("p", ("m", (("h", hw),))),
                                ("d", ("m", (("h", hw),))))))
+    # elements and identities that only Python calls equal; repeats within
+    # one array; rules written for another kind of node than they meet
+    docs.append(("l", (1, 2)))
+    docs.append(("l", (True,)))
+    docs.append(("l", (1.0, 2)))
+    docs.append(("m", (("a", ("l", ("x",))),)))
+    docs.append(("m", (("a", ("l", ("y", "y", "x"))),)))
+    docs.append(("l", (rec("16", "x"),)))
+    docs.append(("l", (rec("0x10", "y"),)))
+    docs.append(("l", (rec("true", "x"), rec("7", "w"))))
+    docs.append(("l", (rec("1", "y"), rec(" 7", "z"))))
+    docs.append(("m", (("a", ("l", ())),)))
+    # twin Arrays-of-Hashes: an identity key configured for one of them
+    docs.append(("m", (("p", ("l", (rec(1, "x"),))),
+                       ("d", ("l", (rec(1, "x"),))))))
+    docs.append(("m", (("p", ("l", (rec(2, "x"),))),
+                       ("d", ("l", (rec(2, "x"),))))))
     seen = set()
     out = []
     for d in docs:
@@ -118,7 +135,9 @@ def plan(tier):
                     {"rules": {"/d/h": "right"}},
                     {"rules": {"/a": "left"}},
                     {"rules": {"/A": "right", "/A/K": "left"}},
-                    {"keys": {"/a": "v"}}]
+                    {"keys": {"/a": "v"}},
+                    {"keys": {"/p": "v"}},
+                    {"rules": {"/a": "deep"}}]
     else:
         LEFTS = docs
         RIGHTS = docs
@@ -133,7 +152,9 @@ def plan(tier):
                     {"rules": {"/p/h": "left"}},
                     {"rules": {"/d/h": "right"}},
                     {"rules": {"/p/h": "unique", "/d": "left"}},
-                    {"rules": {"/A": "right", "/A/K": "left"}}]
+                    {"rules": {"/A": "right", "/A/K": "left"}},
+                    {"keys": {"/p": "v"}},
+                    {"rules": {"/a": "deep"}}]
     bounds = {"left_documents": len(LEFTS), "right_documents": len(RIGHTS),
               "policy_vectors": len(POLICIES), "rule_sets": len(RULESETS),
               "policy_space": "3x4x5x3 = 180" if tier != "quick" else
@@ -230,18 +251,6 @@ def rules_addressable(rs, rcanon):
                 node = kids[name]
             if (not names or section == "keys") and not refmerge.is_aoh(node):
                 return False
-            if section == "rules":
-                # the policy named must be one the addressed node's kind has
-                # (anything else is a configuration error, not a merge)
-                value = rs["rules"][path]
-                if node[0] == "m" and value not in ("deep", "left", "right"):
-                    return False
-                if node[0] == "s" and value not in ("left", "right",
-                                                    "unique"):
-                    return False
-                if node[0] == "l" and not refmerge.is_aoh(node) and \
-                        value not in ("all", "left", "right", "unique"):
-                    return False
     return True
 
 
